@@ -188,6 +188,17 @@ func c11Exec(w *c11World, prog []c11Node) (flat []c11Flat, mustReject bool, ambi
 					flat = append(flat, c11Flat{Method: mm, Path: prefix + n.Path, IDs: all})
 				}
 				w.f.Routes(n.Path, strings.Join(c08KnownMethods, ","), w.hs(own)...)
+			case "routes-mixedcase":
+				// method names in lower and mixed case, in a comma list and as a separate string: the methods they name
+				own := ids(n.NH)
+				all := append(append([]int{}, outer...), own...)
+				for _, mm := range []string{"GET", "POST", "PUT"} {
+					flat = append(flat, c11Flat{Method: mm, Path: prefix + n.Path, IDs: all})
+				}
+				if autoHead {
+					ambiguousHead = true
+				}
+				w.f.Routes(n.Path, "get, Post", append([]flamego.Handler{"put"}, w.hs(own)...)...)
 			case "routes-multi3":
 				// three method names as separate leading strings
 				own := ids(n.NH)
@@ -504,6 +515,14 @@ func c11FlattenOnly(prog []c11Node) (flat []c11Flat, mustReject, amb bool) {
 				for _, mm := range c08KnownMethods {
 					flat = append(flat, c11Flat{Method: mm, Path: prefix + n.Path, IDs: all})
 				}
+			case "routes-mixedcase":
+				all := append(append([]int{}, outer...), ids(n.NH)...)
+				for _, mm := range []string{"GET", "POST", "PUT"} {
+					flat = append(flat, c11Flat{Method: mm, Path: prefix + n.Path, IDs: all})
+				}
+				if autoHead {
+					amb = true
+				}
 			case "routes-multi3":
 				all := append(append([]int{}, outer...), ids(n.NH)...)
 				for _, mm := range []string{"GET", "POST", "PUT"} {
@@ -670,6 +689,11 @@ func c11Programs(thorough bool) [][]c11Node {
 			progs = append(progs, []c11Node{lf}, []c11Node{{Kind: "group", Path: "/g", NH: 1, Children: []c11Node{lf}}},
 				[]c11Node{{Kind: "group", Path: "/g", NH: 2, Children: []c11Node{lf, {Kind: "get", Path: "/v", NH: 1}}}}, []c11Node{{Kind: "autohead-on"}, lf})
 		}
+	}
+	// Routes with method names in lower and mixed case
+	for _, pth := range []string{"/a", "/{x}"} {
+		lf := c11Node{Kind: "routes-mixedcase", Path: pth, NH: 1}
+		progs = append(progs, []c11Node{lf}, []c11Node{{Kind: "group", Path: "/g", NH: 1, Children: []c11Node{lf, {Kind: "get", Path: "/v", NH: 1}}}}, []c11Node{lf, {Kind: "post", Path: "/v", NH: 1}}, []c11Node{{Kind: "any", Path: "/{y}", NH: 1}, lf})
 	}
 	// Routes for two methods with header constraints on the returned route (static and dynamic paths)
 	for _, pth := range []string{"/a", "/{x}"} {
